@@ -246,7 +246,9 @@ def run_harnesses(repo: str, verif: str, names: List[str], keep: bool = False, j
             meta = HARNESSES[n]
             h = dict(meta)
             d = per.get(n)
-            if meta.get("frag") and not frags.get(meta["frag"], {}).get("ok"):
+            if n in (out.get("killed_for_memory") or []):
+                h.update(status="undecided", reason="cbmc exceeded the memory limit and was stopped")
+            elif meta.get("frag") and not frags.get(meta["frag"], {}).get("ok"):
                 h.update(status="undecided", reason="fragment not extracted: " + frags.get(meta["frag"], {}).get("reason", "?"))
             elif build_failed:
                 h.update(status="undecided", reason="the crate (with the harness module) does not compile under Kani: " +
@@ -267,6 +269,9 @@ def run_harnesses(repo: str, verif: str, names: List[str], keep: bool = False, j
                     if d.get("unwind_fail") and len(d.get("failed_descriptions", [])) <= 1 and \
                             all("unwinding" in x for x in d.get("failed_descriptions", ["unwinding"])):
                         h.update(status="undecided", reason="unwinding assertion failed: bound too small for this code")
+                    elif not d.get("failed_descriptions") and not d.get("failed_checks"):
+                        # FAILED without a single failed check: CBMC crashed, was killed or ran out of memory -- never an alarm
+                        h.update(status="undecided", reason="verification aborted without a failed check (solver crash / kill / out of memory)")
                     else:
                         h.update(status="failed", reason="; ".join(d.get("failed_descriptions", []))[:400] or "verification failed",
                                  witness=_decode(meta, _playback(scratch, env, n, meta["timeout"])), output=_tail(d["raw"]))
@@ -295,7 +300,8 @@ def _playback(scratch: str, env: dict, name: str, timeout: int) -> Optional[dict
     """second, single-threaded run of one failing harness with concrete playback (incompatible with -j)"""
     cmd = ["cargo", "kani", "-Z", "stubbing", "-Z", "concrete-playback", "--concrete-playback=print", "--harness", name]
     try:
-        p = subprocess.run(cmd, cwd=os.path.join(scratch, "detector"), env=env, capture_output=True, text=True, timeout=timeout)
+        with MemWatch(env.get("CARGO_TARGET_DIR", scratch)):
+            p = subprocess.run(cmd, cwd=os.path.join(scratch, "detector"), env=env, capture_output=True, text=True, timeout=timeout)
     except subprocess.TimeoutExpired:
         _kill_cbmc(scratch)
         return None
